@@ -248,3 +248,47 @@ func (fc *FnCtx) monitorWrite(st *State, lhs ast.Expr) {
 		}
 	}
 }
+
+// onIndex applies an `on index S(k)` block of the contract to an element access S[k].
+func (fc *FnCtx) onIndex(st *State, x *ast.IndexExpr, i T) {
+	if fc.contract == nil {
+		return
+	}
+	id, ok := unparen(x.X).(*ast.Ident)
+	if !ok {
+		return
+	}
+	for _, oc := range fc.contract.OnCalls {
+		if oc.Callee != "index:"+id.Name {
+			continue
+		}
+		bind := map[string]Val{}
+		if len(oc.Params) > 0 {
+			bind[oc.Params[0]] = VInt{i}
+		}
+		for k, cl := range oc.Requires {
+			if !fc.clauseActive(cl) {
+				continue
+			}
+			env := &specEnv{fc: fc, st: st, old: fc.entry, bind: bind, at: x.Pos(), scopeNode: x}
+			t := fc.specBool(st, cl.Expr, env)
+			fc.curEnv = env
+			fc.assert(st, "requires", "index["+id.Name+"]."+clauseName("requires", cl, k), t, x.Pos(), cl.Src)
+			fc.curEnv = nil
+		}
+		type upd struct {
+			name string
+			v    Val
+		}
+		var upds []upd
+		for _, ef := range oc.Effects {
+			if ef.Expr == nil {
+				continue
+			}
+			upds = append(upds, upd{ef.Target, fc.specVal(st, ef.Expr, &specEnv{fc: fc, st: st, old: fc.entry, bind: bind, at: x.Pos(), scopeNode: x})})
+		}
+		for _, u := range upds {
+			st.ghost[u.name] = u.v
+		}
+	}
+}
